@@ -437,7 +437,7 @@ def unwrap(n):
 class Cfg:
     """per-unit lowering configuration"""
     def __init__(self, types=None, rename=None, free=None, defaults=None, drop=None, throws=None,
-                 plain=None, consts=None, exc_tree=None, dyncast=None, range_for=None, ghost_fields=None, ctor_tag=None):
+                 plain=None, consts=None, exc_tree=None, dyncast=None, range_for=None, ghost_fields=None, ctor_tag=None, uf_ops=None):
         def nk(k):
             if isinstance(k, tuple) and len(k) >= 2 and k[0] == 'ctor':
                 return (k[0], norm_class(k[1])) + tuple(k[2:])
@@ -463,6 +463,7 @@ class Cfg:
         self.range_for = dict(range_for or {})  # class key -> (size fn, at fn)
         self.ghost_fields = dict(ghost_fields or {})
         self.ctor_tag = dict(ctor_tag or {})   # class key -> statement run after the base initialisers (dynamic type tag)
+        self.uf_ops = dict(uf_ops or {})       # floating-point operators abstracted by uninterpreted functions: opcode -> C function
 
 class FnLower:
     def __init__(self, cfg, finfo, cname, index=None):
@@ -1304,6 +1305,12 @@ class FnLower:
         ea, eb = self.expr(a), self.expr(b)
         if op == ',':
             return '(%s, %s)' % (ea, eb)
+        if self.cfg.uf_ops and self.T.c(n['type']) in ('double', 'float'):
+            # arithmetic abstraction (stated in the unit): the operator is an uninterpreted function of its operands
+            if op in self.cfg.uf_ops:
+                return '%s(%s, %s)' % (self.cfg.uf_ops[op], ea, eb)
+            if op.endswith('=') and op[:-1] in self.cfg.uf_ops:
+                return '(%s = %s(%s, %s))' % (ea, self.cfg.uf_ops[op[:-1]], ea, eb)
         return '(%s %s %s)' % (ea, op, eb)
     e_CompoundAssignOperator = e_BinaryOperator
 
